@@ -149,7 +149,7 @@ TargetSeenUpTo(T, g) == \E h \in 1..g : GroupHasTag(T.map[h], "Target")
 TargetEver(T) == Len(T.map) > 0 /\ TargetSeenUpTo(T, Len(T.map))
 \* haplotype of a name of the haplotype-resolved style: the part before the first underscore, lower case ("" = none);
 \* the scenario generator uses exactly two spellings per haplotype
-LcTag(tg) == IF tg \in {"HAP1", "Hap1"} THEN "hap1" ELSE IF tg \in {"hap2", "HAP2"} THEN "hap2" ELSE IF tg \in {"Hap3", "HAP3"} THEN "hap3" ELSE ""
+LcTag(tg) == IF tg \in {"HAP1", "Hap1"} THEN "hap1" ELSE IF tg \in {"hap2", "HAP2"} THEN "hap2" ELSE IF tg \in {"Hap3", "HAP3"} THEN "hap3" ELSE IF tg \in {"MAT", "Mat"} THEN "mat" ELSE IF tg \in {"pat", "Pat"} THEN "pat" ELSE ""
 \* T.haps[s] = haplotype (lower case, "" = none) that the NAME of input scaffold s stands for, as exported by the scenario model
 GroupHap(T, grp) == LET tagged == {LcTag(x) : x \in UNION {{grp.pieces[p].tags[q] : q \in 1..Len(grp.pieces[p].tags)} : p \in 1..Len(grp.pieces)}} \ {""}
                     IN IF tagged # {} THEN CHOOSE h \in tagged : TRUE ELSE T.haps[InputPos(T, grp.pieces[1].src)]
@@ -165,7 +165,7 @@ PieceDest(T, g, p) ==
 \* <root>.<v>.primary.curated.* (read back as key "") and merges every other haplotype into <root>.<v>.all_haplotigs.curated.*
 PrimaryGroups(T) == {g \in 1..Len(T.map) : GroupHasTag(T.map[g], "Primary")}
 PrimaryHap(T) == IF PrimaryGroups(T) = {} THEN "" ELSE GroupHap(T, T.map[CHOOSE g \in PrimaryGroups(T) : TRUE])
-IsHapKey(d) == d \in {"hap1", "hap2", "hap3"}
+IsHapKey(d) == d \in {"hap1", "hap2", "hap3", "mat", "pat"}
 DestKey(T, d) == IF PrimaryHap(T) = "" \/ ~IsHapKey(d) THEN d
                  ELSE IF "route" \in DOMAIN T THEN (IF d = PrimaryHap(T) THEN "" ELSE "all_haplotig")
                  ELSE (IF d = PrimaryHap(T) THEN "primary" ELSE d)
